@@ -45,6 +45,36 @@ CLAIMED = {
         "Machine-checked Lean 4 theorems over an executable model of release_git_object: for all target types, tagger/date presence and message absent/empty/arbitrary (names and taggers with newlines), an independent tag parser recovers object, type, tag, tagger line and message; equal manifests imply equal fields; the target-type table is regenerated from the live code and proved equal to content->blob, directory->tree, revision->commit, release->tag, snapshot->refs and injective. Differential check against the compiled model on every run.",
         NOTE,
     ),
+    "C07": (
+        "§6 C07",
+        "Lean 4 theorems stating the decision logic outright (id assignment, check iff, evolve, raw manifests) for a generic manifest function, instantiated with the seven model manifest functions + correspondence on digests + direct oracle (every field evolved, bit flips)",
+        "Machine-checked Lean 4 theorems over a generic model of BaseHashableModel/HashableObjectWithManifest (parameters: hash H, manifest function): an object built without explicit id carries H of its manifest (of the raw manifest when given) and recomputation gives the same value; check accepts iff the id equals the recomputed one and a raw manifest, if present, is needed; any other id is rejected; evolve yields an id matching the new content; the SWHID type tags are the regenerated table. Instantiated with the models of the seven manifests (C02-C05, C15). The harness supplies SHA-1 digests of the model's manifests to the model's decision logic and compares id, compute_hash(), check() and swhid() with the implementation for all seven kinds, every attrs field evolved, and wrong ids (bit flips, truncations, random).",
+        NOTE + " attrs evolve/validate plumbing is below the model.",
+    ),
+    "C08": (
+        "§6 C08",
+        "Lean 4 round-trip theorems over an executable model of SWHID printing/parsing incl. urllib quote/unquote and UTF-8 with replacement (parse(print v) = v for every well-formed value, codec inverses for all strings/bytes, printed text in grammar) + model/implementation correspondence + independent grammar recogniser",
+        "Machine-checked Lean 4 theorems over an executable model of the three SWHID classes: pyUnquote(escapeOrigin s) = s for every string, unquoteToBytes(quoteFromBytes b) = b for all byte strings, line ranges round-trip, the printed text of every well-formed value (any origin, any path bytes, every qualifier subset) belongs to the documented grammar with qualifiers in the fixed order and only escaped ';' '%', and parsing it returns the value; to_extended/to_qualified keep text and id. Type tables are regenerated from the live enums/regex. The model is compared with the implementation on every run (all 256 path bytes, all 32 qualifier subsets, the whitespace table over every code point).",
+        NOTE + " re and urllib.parse are modelled contracts; line numbers up to 4300 digits (CPython limit).",
+    ),
+    "C09": (
+        "§6 C09",
+        "Lean 4 theorems: parser returns a value or the validation error only; accepted language = independent recogniser (exact with the CPython digit limit made explicit); reprint; class agreement + model/implementation correspondence over generated sentences and single-character edits + independent Python recogniser",
+        "Machine-checked Lean 4 theorems over the same executable model: for every string and class the parse result is a value or ErrKind.validation (never another kind); acceptance is equivalent to the documented language written as an independent recogniser (accept_iff_limit exact for every digit limit, accept_iff_partial for strings whose digit runs are within CPython's 4300-digit limit, accept_sound unconditional); an accepted string re-prints to a string that parses to the same value; the three classes agree on qualifier-free strings. Correspondence on BNF sentences, every single-character edit of seed identifiers, malformed qualifiers and random strings, for all three classes.",
+        NOTE + " Known finding: numbers longer than 4300 digits are in the grammar but rejected cleanly (CPython limit).",
+    ),
+    "C10": (
+        "§6 C10",
+        "Lean 4 invariant proof by induction over operation histories on a heap model of Merkle nodes (no stale cached hash/entries/model object after any acyclic history; back-link preservation) + history correspondence + from-scratch oracle",
+        "Machine-checked Lean 4 theorems over an executable heap model of merkle.py and from_disk.Directory's derived caches (identity-indexed nodes, insertion-ordered children, parent lists with multiplicity, early-exit invalidation, forced/unforced update, nested path keys): the invariant (cached hash = hash of data and children's cached hashes; cached nodes have cached children; back-links cover edges; derived caches consistent) holds initially and is preserved by every operation on acyclic heaps, hence after every operation of every finite history every reported hash, entry list and model object equals the from-scratch value, and deleting a child from one parent changes no other parent's back-link count. The correspondence runs random histories (equal-looking and shared nodes, reads interleaved) on real MerkleNode subclasses and on from_disk.Directory/Content and on the model, comparing every output; an independent from-scratch recomputation is the oracle.",
+        NOTE + " Acyclic structures only; non-falsy hashes; Python dict/list semantics are contracts.",
+    ),
+    "C14": (
+        "§6 C14",
+        "Lean 4 invariant proof extending C10's with the collected flag and a ghost log of reported (node, hash) pairs (completeness, idempotence, reset) + history correspondence + shadow-table oracle",
+        "Machine-checked Lean 4 theorems over the same heap model with collect/reset: after collect(root) at any point of any acyclic history every node reachable from root has been reported with its current from-scratch hash; every unmarked reachable node is in the output; a change of a cached hash unmarks the node; a second collect immediately after reports nothing; after reset every reachable node is reported again. The correspondence compares each collect's output (as a set of values, as Python's set does) on random histories with frequent collects/resets; the oracle keeps a shadow table of reported values against from-scratch hashes.",
+        NOTE + " 'Reported' is by value (data, hash) because collect() returns a Python set.",
+    ),
     "C15": (
         "§6 C15",
         "Lean 4 theorems (ExtID and metadata manifest parsers recover every field, optional lines iff set, date only through the UTC second, different seconds give different manifests) + model/implementation correspondence over every admissible context subset",
